@@ -1,6 +1,7 @@
 import JmesVerif.Lemmas.SemConform
 import JmesVerif.Lemmas.SemConformCex
 import JmesVerif.Props.C03
+import JmesVerif.Lemmas.CodeEquiv
 /-!
 # C01 — search results conform to the JMESPath specification (core expression forms)
 
@@ -75,9 +76,17 @@ example : Sem.expr (.arr [.obj [("a", .num (.pos 1))], .obj [("b", .null)]])
     (.mk (.wildIdx (.dot (.expr (.mk (.field "a") [])))) []) = some (.arr [.num (.pos 1)]) := by
   rfl
 
+
+/-! ### the truthiness table and the type tags as re-translated from variable.rs (`is_truthy`, `get_type`) on every run -/
+open Generated.Code in
+theorem C01_translated_truthy_type (v : Val) :
+    is_truthy (viewOf v) = v.truthy ∧ jtypeOf (get_type (viewOf v)) = v.type :=
+  ⟨gen_truthy_eq v, gen_type_eq v⟩
+
 end JmesVerif
 
 #print axioms JmesVerif.C01_conformance
 #print axioms JmesVerif.C01_conformance_safe
 #print axioms JmesVerif.C01_search
 #print axioms JmesVerif.C01_unconditional_false
+#print axioms JmesVerif.C01_translated_truthy_type
